@@ -1,1 +1,80 @@
-fn main(){}
+//! Library harness: C01, C02, C15 (event path) and C13 (fs worker) on a whole `Watchexec`.
+
+mod evh;
+mod fsw;
+mod model;
+
+use dex::{
+	explore::{Bounds, Exec, Point},
+	orch::{self, Harness, Obs, Tier},
+};
+
+struct EvH {
+	prop: String,
+}
+
+#[derive(Clone, serde::Serialize, serde::Deserialize)]
+enum LibSc {
+	Ev(evh::EvSc),
+	Fs(fsw::FsSc),
+}
+
+impl Harness for EvH {
+	type Sc = LibSc;
+	fn name(&self) -> &'static str {
+		"h-lib"
+	}
+	fn property(&self) -> &str {
+		&self.prop
+	}
+	fn scenarios(&self, tier: Tier) -> Vec<(LibSc, Vec<Bounds>)> {
+		let mut v: Vec<(LibSc, Vec<Bounds>)> = vec![];
+		if self.prop != "C13" {
+			let mut e = evh::scenarios(&self.prop, tier);
+			if let Ok(f) = std::env::var("VERIF_SCRIPT") {
+				e.retain(|(s, _)| format!("{:?}", s.script.iter().map(|(o, _)| *o).collect::<Vec<_>>()) == f);
+			}
+			v.extend(e.into_iter().map(|(s, b)| (LibSc::Ev(s), b)));
+		}
+		if self.prop == "C13" || self.prop == "C15" {
+			v.extend(fsw::scenarios(&self.prop, tier).into_iter().map(|(s, b)| (LibSc::Fs(s), b)));
+		}
+		v
+	}
+	fn run(&self, sc: &LibSc, bounds: Bounds, prefix: &[Point]) -> Result<Exec<Obs>, String> {
+		match sc {
+			LibSc::Ev(s) => evh::run(s, bounds, prefix, &self.prop),
+			LibSc::Fs(s) => fsw::run(s, bounds, prefix, &self.prop),
+		}
+	}
+}
+
+fn main() {
+	let argv: Vec<String> = std::env::args().skip(1).collect();
+	let args = orch::parse_args(&argv);
+	let prop = args.rest.first().cloned().unwrap_or_else(|| {
+		eprintln!("usage: h-lib <C01|C02|C13|C15> [--tier quick|thorough] [--replay file]");
+		std::process::exit(2);
+	});
+	let assumptions = vec![
+		"atomic step = one task poll on a current-thread tokio runtime (tokio 1.43.0 with three explorer seams)".to_string(),
+		"virtual time, 1 tick = 10 ms; the action worker measures its window on tokio's clock (cfg(watchexec_verif) seam)".to_string(),
+		"filesystem watcher replaced by FakeWatcher through the cfg(watchexec_verif) factory seam; real inotify delivery is out of reach".to_string(),
+	];
+	let code = match prop.as_str() {
+		"C01" | "C02" | "C13" | "C15" => {
+			let h = EvH { prop: prop.clone() };
+			if args.rest.get(1).map(String::as_str) == Some("--count") {
+				println!("{} scenarios", h.scenarios(args.tier).len());
+				return;
+			}
+			let rule = "every ENV order (sends per producer, ticks, handler completion, throttle change) of every scenario, and every order of configuration changes incl. landings inside watch/unwatch calls, times every SCHED/PREEMPT deviation set within the pass bound; non-trivial = the action handler ran / a path was registered; distinct = distinct observation logs";
+			orch::dex_main(&h, &args, &[prop], assumptions, rule)
+		}
+		_ => {
+			eprintln!("unknown property {prop}");
+			2
+		}
+	};
+	std::process::exit(code);
+}
